@@ -14,11 +14,16 @@
 //   GA seed mean sd n     Random::Gaussian(mean,sd); setSeed; n x getValue
 //   RS seed n k           Uniform: setSeed, n draws, setSeed again, k draws (reseeding restarts the stream)
 //   DEF n                 a fresh Random::Uniform() without setSeed: prints n values (seed = construction count)
+//   EX min max r          the expression of Uniform::getValue/getIntValue evaluated in C++ double arithmetic for a
+//                         given unit value r: prints bits(min + r*(max-min)) and (int)floor of it (validates the
+//                         Flocq binary64 model on boundary r; the use of the expression by Random is tied by UR/UI)
+//   SRCH seed n           failing-input search: the property's predicates on n generated cases (see below)
 //   WIT seed min max lim  first draw (1-based) at which Uniform(min,max).getIntValue() >= max or < min, and the
 //                         unit-interval value of that draw (from a twin Uniform(0,1) with the same seed)
 #include "SimTKcommon.h"
 #include "SimTKcommon/Random/src/SFMT.h"
 #include <cstdio>
+#include <cmath>
 #include <cstring>
 #include <cstdint>
 #include <string>
@@ -105,6 +110,56 @@ int main() {
                 if (!(v < ofBits(mx)) || v < ofBits(mn)) { at = i; rb = bitsOf(r); got = v; break; }
             }
             printf("%lld %llx %d ", at, (unsigned long long)rb, got);
+        } else if (cmd == "EX") {
+            volatile double mn = ofBits(rdhex(is)), mx = ofBits(rdhex(is)), r = ofBits(rdhex(is));
+            volatile double range = mx - mn; volatile double p = r * range; volatile double v = mn + p;
+            double fl = std::floor(v);
+            printf("%llx ", (unsigned long long)bitsOf(v));
+            if (fl >= -2147483648.0 && fl <= 2147483647.0) printf("%d ", (int)fl); else printf("x ");
+        } else if (cmd == "SRCH") {
+            int seed, n; is >> seed >> n;
+            long long evals = 0; int fails = 0;
+            // generator of the search itself: independent of the code under test (xorshift64*)
+            struct Pick { uint64_t s; double getValue() { s ^= s >> 12; s ^= s << 25; s ^= s >> 27;
+                          return (double)((s * 2685821657736338717ULL) >> 11) / 9007199254740992.0; } } pick;
+            pick.s = 0x9E3779B97F4A7C15ULL ^ (uint64_t)(uint32_t)seed * 0x100000001B3ULL; if (!pick.s) pick.s = 1;
+            // (a) SFMT reference vector
+            { SFMTData* d = createSFMTData(); init_gen_rand(1234, *d);
+              unsigned int e[] = {3440181298u, 1564997079u, 1510669302u, 2930277156u, 1452439940u};
+              for (int i = 0; i < 5; ++i) { ++evals; unsigned int g = gen_rand32(*d);
+                  if (g != e[i] && fails++ < 5) printf("FAIL sfmt-reference init_gen_rand(1234) output %d = %u expected %u\n", i, g, e[i]); }
+              deleteSFMTData(d); }
+            for (int c = 0; c < n; ++c) {
+                int sd = (int)std::floor(pick.getValue() * 4294967296.0 - 2147483648.0);
+                // (b) same seed -> same sequence; reseeding restarts it; values in [0,1)
+                Random::Uniform u1, u2; u1.setSeed(sd); u2.setSeed(sd);
+                double first = 0;
+                for (int i = 0; i < 1500; ++i) { ++evals; double a = u1.getValue(), b = u2.getValue(); if (i == 0) first = a;
+                    if (bitsOf(a) != bitsOf(b) && fails++ < 5) printf("FAIL determinism seed %d draw %d: %a vs %a\n", sd, i + 1, a, b);
+                    if (!(a >= 0 && a < 1) && fails++ < 5) printf("FAIL unit-range seed %d draw %d: %a\n", sd, i + 1, a); }
+                u1.setSeed(sd); ++evals;
+                { double a = u1.getValue(); if (bitsOf(a) != bitsOf(first) && fails++ < 5) printf("FAIL reseed seed %d: %a vs %a\n", sd, a, first); }
+                // (c) gen_rand64 and fill_array64 deliver the same stream
+                { SFMTData* d1 = createSFMTData(); SFMTData* d2 = createSFMTData();
+                  init_gen_rand((uint32_t)sd, *d1); init_gen_rand((uint32_t)sd, *d2);
+                  std::vector<uint64_t> buf(1024); fill_array64(buf.data(), 1024, *d2);
+                  for (int i = 0; i < 1024; ++i) { ++evals; uint64_t g = gen_rand64(*d1);
+                      if (g != buf[i] && fails++ < 5) printf("FAIL fill-vs-gen seed %d index %d\n", sd, i); }
+                  deleteSFMTData(d1); deleteSFMTData(d2); }
+                // (d) ranges: intervals with |bounds| <= 1000 (where an overshoot by rounding has probability < 2^-40 per draw)
+                double lo = std::floor(pick.getValue() * 2000 - 1000), w = 1 + std::floor(pick.getValue() * 50);
+                if (c % 3 == 1) { lo = pick.getValue() * 2 - 1; w = pick.getValue() * 1e-3 + 1e-9; }
+                Random::Uniform ur(lo, lo + w), ui(std::floor(lo), std::floor(lo) + std::ceil(w)); ur.setSeed(sd); ui.setSeed(sd);
+                for (int i = 0; i < 1500; ++i) { evals += 2; double a = ur.getValue(); int k = ui.getIntValue();
+                    if (!(a >= lo && a < lo + w) && fails++ < 5) printf("FAIL real-range seed %d min %a max %a draw %d: %a\n", sd, lo, lo + w, i + 1, a);
+                    if (!(k >= std::floor(lo) && k < std::floor(lo) + std::ceil(w)) && fails++ < 5)
+                        printf("FAIL int-range seed %d min %a max %a draw %d: %d\n", sd, std::floor(lo), std::floor(lo) + std::ceil(w), i + 1, k); }
+                // (e) Gaussian: same seed -> same sequence, finite values
+                Random::Gaussian g1(lo, w), g2(lo, w); g1.setSeed(sd); g2.setSeed(sd);
+                for (int i = 0; i < 300; ++i) { ++evals; double a = g1.getValue(), b = g2.getValue();
+                    if ((bitsOf(a) != bitsOf(b) || !std::isfinite(a)) && fails++ < 5) printf("FAIL gaussian seed %d draw %d: %a vs %a\n", sd, i + 1, a, b); }
+            }
+            printf("DONE %lld %d", evals, fails);
         } else if (cmd.empty()) {
             continue;
         } else printf("?");
